@@ -225,20 +225,25 @@ def check(case, r, tier):
         once = ".once\n.byte 21\n.byte 22\n"
         plain = ".byte 31\n"
         viaonce = ".byte 41\n.include \"once.mac\"\n.byte 42\n"
-        tree = {"once.mac": once, "plain.mac": plain, "via.mac": viaonce}
-        elems = {"O": (".include \"once.mac\"", b"\x11\x12"), "P": (".include \"plain.mac\"", b"\x19"), "V": (".include \"via.mac\"", None), "B": (".byte 7", b"\x07")}
+        tree = {"once.mac": once, "plain.mac": plain, "via.mac": viaonce, "sub/deep.mac": ".byte 51\n.include \"../once.mac\"\n.byte 52\n"}
+        # the same file reached through differently spelled paths is still the same file
+        elems = {"O": (".include \"once.mac\"", b"\x11\x12"), "P": (".include \"plain.mac\"", b"\x19"), "V": (".include \"via.mac\"", None), "B": (".byte 7", b"\x07"),
+                 "o": (".include \"./once.mac\"", b"\x11\x12"), "q": (".include \"sub/../once.mac\"", b"\x11\x12"), "D": (".include \"sub/deep.mac\"", None)}
         for n in (1, 2, 3, 4):
-            for combo in itertools.product("OPVB", repeat=n):
+            for combo in itertools.product("OPVBoqD" if n <= 3 else "OPVB", repeat=n):
                 text = "\n".join(elems[e][0] for e in combo) + "\n"
                 seen = False
                 want = b""
                 for e in combo:
-                    if e == "O":
+                    if e in "Ooq":
                         if not seen:
                             want += b"\x11\x12"
                         seen = True
                     elif e == "V":
                         want += b"\x21" + (b"" if seen else b"\x11\x12") + b"\x22"
+                        seen = True
+                    elif e == "D":
+                        want += b"\x29" + (b"" if seen else b"\x11\x12") + b"\x2a"
                         seen = True
                     else:
                         want += elems[e][1]
